@@ -28,7 +28,9 @@ func c07Record(t *rapid.T, multiline bool, ansi bool) (raw string, plain string)
 			f = "\n"
 		}
 		if ansi && rapid.IntRange(0, 3).Draw(t, "sgr") == 0 {
-			seq := rapid.SampledFrom([]string{"\x1b[31m", "\x1b[1;44m", "\x1b[m", "\x1b[38;5;208m", "\x1b[0K"}).Draw(t, "seq")
+			seq := rapid.SampledFrom([]string{"\x1b[31m", "\x1b[1;44m", "\x1b[m", "\x1b[38;5;208m", "\x1b[0K",
+				// the sequences without an ESC byte: charset shifts and an overstruck character (nroff bold)
+				"\x0e", "\x0f", "_\x08", "\x1b(B"}).Draw(t, "seq")
 			rb.WriteString(seq)
 		}
 		rb.WriteString(f)
